@@ -28,9 +28,13 @@ RULE = ("One case = one linear map (tensor M, Hermitian or not), a start vector 
         "(expmv: t != 0 and the Krylov space smaller than the sector, or sub-stepping; eigs / lin_solver: ncv smaller than the reachable dimension, "
         "or an invariant start vector). Distinct by SHA-1 of the descriptor.")
 ASSUMPTIONS = ["dense references scipy.linalg.expm / numpy.linalg.eig(h) / lstsq on M.to_numpy()",
-               "expmv error bound: |w - ref| <= (200 tol + 1e-11) * amplification * |ref|, amplification = exp(|t| (||F||_2 - spectral abscissa of the relevant sign)) "
+               "expmv error bound: |w - ref| <= (10 tol + 1e-11) * amplification * |ref| (observed maximum on the unchanged tree: 0.61 tol), amplification = exp(|t| (||F||_2 - spectral abscissa of the relevant sign)) "
                "capped to cases with amplification <= 1e4 (Hermitian maps: 1)",
                "hermitian=True is only passed for Hermitian maps"]
+
+
+# observed on the unchanged tree (12 000 cases): |expmv - ref| / (tol * amplification) <= 0.61
+BOUND_FACTOR = 10
 
 
 def cx(v):
@@ -195,7 +199,7 @@ def draw_expmv(data, tier):
         D0 = data.draw(st.sampled_from([40, 64, 33, 100]))
         desc['legs'] = [{'t': [t0], 'D': [D0]}] + [{'t': [lg['t'][0]], 'D': [1]} for lg in desc['legs'][1:]]
         desc['n'] = list(C.gsum(desc['cfg']['sym'], [tuple(lg['t'][0]) for lg in desc['legs']], desc['s']))
-        desc['tau'] = data.draw(st.sampled_from([20.0, 40.0, 5.0]))
+        desc['tau'] = data.draw(st.sampled_from([20.0, 40.0, 5.0, 100.0, 250.0]))
         desc['return_info'] = True
         if desc['start'] in ('eigvec', 'two_eigvecs'):
             desc['start'] = 'random'
@@ -246,7 +250,7 @@ def execute_expmv(desc):
         if abs(np.linalg.norm(a) - 1) > 1e-8 + desc['tol']:     # (normalisation relies on the orthonormality of the Krylov basis)
             raise Violation('expmv:not_normalised', f'normalize=True returned a vector of norm {np.linalg.norm(a)}')
     err = np.linalg.norm(a - ref) / nref
-    bound = (200 * desc['tol'] + 1e-11) * max(1.0, amp)
+    bound = (BOUND_FACTOR * desc['tol'] + 1e-11) * max(1.0, amp)
     if err > bound:
         raise Violation('expmv:inaccurate' + (':hermitian' if hflag else ':arnoldi'),
                         f'|expmv - expm(tF)v| / |expm(tF)v| = {err:.3e} > {bound:.3e} (tol = {desc["tol"]}, |t| ||F|| = {desc["tau"]}, ncv = {desc["ncv"]}, amplification {amp:.2e})')
@@ -261,7 +265,8 @@ def execute_expmv(desc):
     if desc['tau'] == 0 and mp.calls != 0 and False:
         pass
     nt = mp.d >= 6 and desc['tau'] > 0 and (desc['ncv'] < mp.d or (info is not None and info['steps'] > 1))
-    return Res(labels=labels + [f'err_over_tol:1e{int(math.floor(math.log10(max(err / desc["tol"], 1e-6))))}'], nontrivial=bool(nt))
+    return Res(labels=labels + [f'err_over_tol:1e{int(math.floor(math.log10(max(err / desc["tol"], 1e-6))))}'], nontrivial=bool(nt),
+               extra={'ratio': err / (desc['tol'] * max(1.0, amp) + 1e-13), 'steps': None if info is None else info['steps']})
 
 
 # ---- eigs -----------------------------------------------------------------------------------------------------------------
